@@ -1,0 +1,30 @@
+//go:build verif
+
+// Package switchr: machine-checked contracts (comment-only; read by /verif/govc).
+package switchr
+
+//@ type Switch
+//@   invariant wired [C13]: nonnil(self.instance)
+
+// Every forwarding step strictly decreases the TTL and a frame whose TTL would reach zero is not sent:
+// whatever the routing tables contain a frame crosses at most (initial TTL - 1) links.
+//@ func Switch.forwardToLink
+//@   requires nonnil(f) && f.data != nil && nonnil(link)
+//@   callsite peering.Link.Send ttl-decreased-and-positive [C10]: f.data[1] == old(f.data[1]) - 1 && f.data[1] >= 1 && old(f.data[1]) >= 2
+//@   callsite peering.Link.SendPriority ttl-decreased-and-positive [C10]: f.data[1] == old(f.data[1]) - 1 && f.data[1] >= 1 && old(f.data[1]) >= 2
+//@   ensures expired-frames-are-not-sent [C10]: old(f.data[1]) <= 1 ==> result != nil
+//@   modifies f.data[1:3]
+//@   ensures ttl-never-increases [C10]: f.data[1] <= old(f.data[1])
+
+// ttl bound: a frame that has crossed k links still has TTL >= 1, and lost exactly 1 per link: k <= TTL0 - 1 (31 for the initial 32)
+//@ lemma ttl-bounds-link-crossings: forall t0 uint8, k uint8 :: (t0 >= k && t0 - k >= 1) ==> k <= t0 - 1
+
+//@ func Switch.ForwardByLabel
+//@   requires nonnil(f) && f.data != nil
+//@ func Switch.ForwardByPeer
+//@   requires nonnil(f) && f.data != nil
+
+// Label switching changes only TTL, flow flags and the switch block of a frame.
+//@ func Switch.handleFrame
+//@   requires nonnil(f) && f.data != nil
+//@   ensures forwarding-preserves-content [C10]: len(f.data) == old(len(f.data)) && (forall i int :: 0 <= i && i < len(f.data) && i != 1 && i != 2 && !(49 <= i && i < f.messageIndex) ==> f.data[i] == old(f.data[i]))
